@@ -95,6 +95,10 @@ def c_get_current_engine(interp, where, p):
     cfg = engine_cfg()
     c.effects.append(("global-read", "sym_metanet.engine"))
     if cfg is None:
+        if any(w.startswith("sym_metanet.engines.") and not w.startswith("sym_metanet.engines.core") for w in c.where):
+            # inside a primitive of an engine: that engine is the one in use (it was passed explicitly or
+            # was the selected one when the call started); the selection may be another engine by now
+            c.oblige("noglobal", "an engine's primitive does not consult the selected engine (the engine it belongs to is the one in use)", T.FALSE, assume_after=False)
         raise Unsupported("get_current_engine() outside an engine configuration")
     if cfg.explicit is not None:
         c.oblige("noglobal", "the selected engine is not consulted when an engine was passed", T.FALSE, assume_after=False)
